@@ -3,4 +3,5 @@ CONSTANTS
 INIT Init
 NEXT Next
 INVARIANT LawLengthen
+INVARIANT LawVMRefines
 CHECK_DEADLOCK FALSE
